@@ -918,6 +918,20 @@ func (e *Env) evalCall(n *spec.Call) (SV, error) {
 			return SV{}, fmt.Errorf("wf() of untyped value")
 		}
 		return SV{T: vc.tt.wf(v.Ty, v.T, e.state().Alloc)}, nil
+	case "concat":
+		// concat(a, b): Go string concatenation a + b
+		a, err := arg(0)
+		if err != nil {
+			return SV{}, err
+		}
+		b, err := arg(1)
+		if err != nil {
+			return SV{}, err
+		}
+		if a.T.Sort != SStr || b.T.Sort != SStr {
+			return SV{}, fmt.Errorf("concat() of non-strings")
+		}
+		return SV{T: Term{app("sconcat", a.T, b.T), SStr}, Ty: types.Typ[types.String]}, nil
 	case "ufslice":
 		// ufslice("ElemType", "name", args...): an uninterpreted function returning a slice of that
 		// element type (e.g. the list an abstract store holds for a key)
@@ -1038,8 +1052,12 @@ func (e *Env) evalCall(n *spec.Call) (SV, error) {
 		}
 		t, err := e.lookupType(s.Val)
 		if err != nil {
-			// the type is not part of the loaded program: no value here can have it
-			return SV{T: False}, nil
+			// a type of a package that is not part of the loaded program: no value here can have
+			// it.  Anything else (a misspelt or wrongly scoped name) is a contract error, not `false`.
+			if i := strings.LastIndex(s.Val, "."); i >= 0 && !e.pkgLoaded(strings.TrimPrefix(s.Val[:i], "*")) {
+				return SV{T: False}, nil
+			}
+			return SV{}, fmt.Errorf("typeis: %v", err)
 		}
 		return SV{T: Eq(ITag(v.T), IntLit(int64(vc.tt.tag(t))))}, nil
 	case "as":
@@ -1075,6 +1093,9 @@ func (e *Env) evalCall(n *spec.Call) (SV, error) {
 		}
 		inner := *e
 		inner.depth++
+		if mp := e.macroPkg(m); mp != nil {
+			inner.pkg = mp // type and constant names in the body resolve in the defining package
+		}
 		inner.names = map[string]SV{}
 		for k, v := range e.names {
 			inner.names[k] = v
@@ -1156,6 +1177,9 @@ func (e *Env) lookupType(s string) (types.Type, error) {
 		}
 	} else if e.pkg != nil {
 		obj = e.pkg.Scope().Lookup(s)
+	}
+	if obj == nil {
+		obj = types.Universe.Lookup(s) // string, bool, uint64, ...
 	}
 	tn, ok := obj.(*types.TypeName)
 	if !ok {
@@ -1439,7 +1463,11 @@ func (e *Env) evalOpaque(m *spec.Macro, n *spec.Call) (SV, error) {
 			bound[p] = true
 			params = append(params, fmt.Sprintf("(%s %s)", pt.S, pt.Sort))
 		}
-		inner := &Env{vc: vc, names: names, st: st, old: st, pkg: e.pkg, depth: e.depth + 1, bound: bound}
+		ipkg := e.pkg
+		if mp := e.macroPkg(m); mp != nil {
+			ipkg = mp
+		}
+		inner := &Env{vc: vc, names: names, st: st, old: st, pkg: ipkg, depth: e.depth + 1, bound: bound}
 		body, err := inner.eval(m.Body)
 		if err != nil {
 			return SV{}, fmt.Errorf("opaque %s: %v", m.Name, err)
@@ -1503,4 +1531,27 @@ func (e *Env) evalOpaque(m *spec.Macro, n *spec.Call) (SV, error) {
 		ts = append(ts, a.T)
 	}
 	return SV{T: Term{app(info.fn, ts...), info.rsort}, Ty: info.rty}, nil
+}
+
+// pkgLoaded: is a package with this name or import path part of the loaded program?
+func (e *Env) pkgLoaded(pn string) bool {
+	for _, p := range e.vc.P.SSA.AllPackages() {
+		if p.Pkg.Name() == pn || p.Pkg.Path() == pn {
+			return true
+		}
+	}
+	return false
+}
+
+// macroPkg: the package whose contract file defines the macro (nil: unknown / not loaded).
+func (e *Env) macroPkg(m *spec.Macro) *types.Package {
+	if m.Pkg == "" {
+		return nil
+	}
+	for _, p := range e.vc.P.SSA.AllPackages() {
+		if p.Pkg.Path() == m.Pkg {
+			return p.Pkg
+		}
+	}
+	return nil
 }
